@@ -24,7 +24,8 @@ ANCHORS_OPTIONAL = ('pycaption.dfxp.base:DFXPReader.read', 'pycaption.sami:SAMIP
                     'pycaption.sami:SAMIParser.handle_starttag', 'pycaption.sami:SAMIReader.read',
                     'pycaption.sami:SAMIReader._translate_lang')   # also run in child processes
 THOROUGH_SCALE = 4        # random budgets of the thorough tier are multiplied by this
-REQUIRE = {'sets_whose_languages_share_all_timespans': 50, 'dfxp_writes_LegacyDFXPWriter': 20,
+REQUIRE = {'sets_whose_first_language_is_empty': 30, 'dfxp_documents_round_tripped': 20, 'sami_documents_round_tripped': 20,
+           'sets_whose_languages_share_all_timespans': 50, 'dfxp_writes_LegacyDFXPWriter': 20,
            'dfxp_writes_SinglePositioningDFXPWriter': 20, 'child_batches': 3, 'dfxp_docs_read': 30, 'sami_docs_read': 30, 'div_without_lang': 5,
            'default_lang_env_used': 2, 'sets_written_dfxp': 50, 'sets_written_sami': 50, 'webvtt_lang_option': 30,
            'force_option': 20, 'sami_secondary_language_syncs_inserted': 30, 'reader_lang_option': 20,
@@ -118,6 +119,10 @@ def gen_multi_set(rng, tag):
             l['captions'] = [{'start': c['start'], 'end': c['end'], 'nodes': [['t', f"{tag}.{l['lang']}.{ci} text"]],
                               'style': None, 'layout': None} for ci, c in enumerate(first)]
         spec['parallel'] = True
+    elif len(langs) > 1 and rng.random() < 0.12:
+        # a language without captions in front of the others (e.g. a SAMI class whose paragraphs are all blank)
+        spec['langs'][0]['captions'] = []
+        spec['empty_first'] = True
     return spec
 
 
@@ -133,6 +138,12 @@ def cases(ctx):
             tag = f'B{ctx.shard}.{b}.{k}'
             jobs.append(gen_dfxp_multi(rng, tag) if k % 2 == 0 else gen_sami_multi(rng, tag))
         yield {'kind': 'child', 'env': envs[(b + ctx.shard) % 3], 'hashseed': seeds[(b // 3 + ctx.shard) % 3], 'docs': jobs}
+    for i in range(ctx.budget(600, 20000)):
+        # documents read and written back in the same format: every language keeps its cues
+        tag = f'T{ctx.shard}.{i}'
+        d = gen_dfxp_multi(rng, tag) if i % 2 == 0 else gen_sami_multi(rng, tag)
+        if not d.get('prefix_pair'):
+            yield {'kind': 'doc-roundtrip', 'doc': d}
     for i in range(ctx.budget(5000, 150000)):
         tag = f'M{ctx.shard}.{i}'
         r = rng.random()
@@ -159,7 +170,7 @@ def cases(ctx):
 def nontrivial(case):
     if case['kind'] == 'child':
         return True
-    if case['kind'] == 'reader-lang':
+    if case['kind'] in ('reader-lang', 'doc-roundtrip'):
         return True
     return len(case['set']['langs']) >= 2
 
@@ -220,6 +231,39 @@ def check(case, ctx):
                                   'format': d['format'], 'lang': l, 'expected': w, 'got': g,
                                   'prefix_pair': d.get('prefix_pair'), 'all_langs': [x for x, _ in want]})
         return fails[:4]
+    if kind == 'doc-roundtrip':
+        from pycaption.base import DEFAULT_LANGUAGE_CODE
+        d = case['doc']
+        if d['format'] == 'dfxp':
+            want = [(e['label'] or e['tt_lang'] or DEFAULT_LANGUAGE_CODE, [dump.norm_line(x) for x in e['cues']])
+                    for e in d['expected']]
+            if len({l for l, _ in want}) != len(want):
+                return []
+            out = pycaption.DFXPWriter().write(pycaption.DFXPReader().read(d['doc']))
+            doc = parsers.parse_ttml(out)
+            got = [(dv['lang'], [dump.norm_line(' '.join(p['lines'])) for p in dv['ps']]) for dv in doc['divs']]
+            ctx.count('dfxp_documents_round_tripped')
+        else:
+            want = [(e['lang'], [dump.norm_line(' '.join(c['lines'])) for c in e['cues']]) for e in d['expected']
+                    if e['cues']]
+            out = pycaption.SAMIWriter().write(pycaption.SAMIReader().read(d['doc']))
+            doc = parsers.parse_sami(out)
+            per, order = {}, []
+            for sy in doc['syncs']:
+                for p in sy['ps']:
+                    if not p['blank']:
+                        if p['lang'] not in per:
+                            order.append(p['lang'])
+                        per.setdefault(p['lang'], []).append(dump.norm_line(' '.join(p['lines'])))
+            got = [(l, per[l]) for l in order]
+            want = sorted(want)
+            got = sorted(got)
+            ctx.count('sami_documents_round_tripped')
+        ctx.count('languages_compared', len(want))
+        if got != want:
+            fails.append({'what': 'a document written back in its own format does not keep every language\'s cues',
+                          'format': d['format'], 'expected': want, 'got': got})
+        return fails
     if kind == 'reader-lang':
         name = docs.READERS[case['format']]
         cs = getattr(pycaption, name)(**case['reader_kwargs']).read(case['doc'], **case['read_kwargs'])
@@ -236,6 +280,8 @@ def check(case, ctx):
     ctx.count('languages_compared', len(langs))
     if spec.get('parallel'):
         ctx.count('sets_whose_languages_share_all_timespans')
+    if spec.get('empty_first'):
+        ctx.count('sets_whose_first_language_is_empty')
     if kind == 'webvtt-write':
         ctx.count('webvtt_lang_option')
         kw = {'lang': case['lang']} if case['lang'] else {}
@@ -271,7 +317,14 @@ def check(case, ctx):
             fails.append({'what': 'DFXP output divs are not the selected languages with their own cues in order',
                           'force': case['force'], 'expected': want, 'got': got})
             return fails
-        back = _lang_texts(dump.caption_set(pycaption.DFXPReader().read(out)))
+        from pycaption.exceptions import CaptionReadNoCaptions
+        try:
+            back = _lang_texts(dump.caption_set(pycaption.DFXPReader().read(out)))
+        except CaptionReadNoCaptions:
+            back = []
+        # a language without captions may or may not survive the read (an empty div holds nothing to keep)
+        back = [x for x in back if x[1]]
+        want = [x for x in want if x[1]]
         if back != want:
             fails.append({'what': 'reading the DFXP output back changes languages / cues',
                           'expected': want, 'got': back})
